@@ -17,7 +17,7 @@ for pid in props:
         'evidence_file': '/verif/evidence/%s.json' % pid,
         'replay_cmd_template': './check %s --replay {path}' % pid,
         'engine': 'sea',
-        'level_claimed': {'category': 'model_checking', 'text': c['text'], 'design_ref': c.get('design_ref', 'DESIGN.md section 5 ' + pid)},
+        'level_claimed': {'category': c.get('category', 'model_checking'), 'text': c['text'], 'design_ref': c.get('design_ref', 'DESIGN.md section 5 ' + pid)},
         'level_note': c['note'],
         'technique': c.get('technique', 'bounded symbolic execution of the real Python source (AST-instrumented at import) with z3; path tree exhausted, every path discharged by an SMT query; counterexamples replayed on the uninstrumented code'),
     })
